@@ -13,7 +13,7 @@ CFG = dict(
               "C20_chain_transform", "C20_site_none", "C20_site_single", "C20_site_chain", "C20_client_site",
               "C20_stats_client_unary", "C20_stats_client_stream_open_failed", "C20_stats_client_stream",
               "C20_stats_server_unary_partial", "C20_stats_server_stream_partial", "C20_stats_end_eof_refuted",
-              "C20_stats_refused", "C20_conn"],
+              "C20_stats_refused", "C20_conn", "C20_stats_tagged"],
     imports=["Model.Chain", "Model.Stats", "Check.C20c"],
     case_type="c20case",
     find_bad_from="find_bad_from",
@@ -28,7 +28,8 @@ CFG = dict(
                  "3": "a stage or the handler did not run exactly once, in order (Check/C20c.v spec_once)",
                  "5": "End.Error is nil although the RPC failed at that role, or non-nil although it succeeded (spec_end)",
                  "6": "not exactly one Begin before every other event / not exactly one End for a finished RPC / events after End (spec_shape)",
-                 "7": "an event carried no tag or the tag of another RPC",
+                 "7": "an event carried no tag or the tag of another RPC, or was delivered with a context that lacks the handler's own "
+                      "TagRPC value (CStatsCtx: depth of the delivered context)",
                  "8": "not exactly one tagged ConnBegin and ConnEnd for a served connection"},
     rule="chain: recording interceptors with behaviours {Pass, ModCtx, ModReq, ModRep, ModErr, Short e, Twice}: ALL lists of length "
          "1..3 + seeded lists of length 4..6 (150 per kind; thorough: 1500) + all-pass chains 1..6, handler ok / failing, unary and stream, against "
